@@ -191,9 +191,10 @@ func (fr *frame) strEq(a, b *Val) Term {
 	e := ft.c.Fresh("streq", SBool)
 	ft.c.Assume(e, mkImp(e, mkEq(a.strLen(), b.strLen())))
 	ft.c.Assume(e, mkImp(mkAnd(mkEq(a.strLen(), b.strLen()), mkEq(a.strArr(), b.strArr()), mkEq(a.strOff(), b.strOff())), e))
-	k := "k!" + fmt.Sprint(ft.c.n)
-	ft.c.Assume(e, Term{SBool, fmt.Sprintf("(=> %s (forall ((%s (_ BitVec 64))) (=> (bvult %s %s) (= (select %s (bvadd %s %s)) (select %s (bvadd %s %s))))))",
-		e.T, k, k, a.strLen().T, a.strArr().T, a.strOff().T, k, b.strArr().T, b.strOff().T, k)})
+	k := ft.c.BoundVar("k")
+	q := ft.c.Quant(false, k, SIdx, Term{SBool, fmt.Sprintf("(=> (bvult %s %s) (= (select %s (bvadd %s %s)) (select %s (bvadd %s %s))))",
+		k, a.strLen().T, a.strArr().T, a.strOff().T, k, b.strArr().T, b.strOff().T, k)})
+	ft.c.Assume(e, mkImp(e, q))
 	return e
 }
 
